@@ -101,6 +101,8 @@ def line(req):
     if op == 'makeup':
         _, nextra, ps = req
         return 'makeup %s %s' % ('.'.join(str(900 + i) for i in range(nextra)) or '_', core.params_line(ps))
+    if op == 'stream-timeout':
+        return 'stream-timeout %s' % (req[1],)
     raise core.HarnessError('unknown op %r' % (op,))
 
 
@@ -439,15 +441,26 @@ def run_stream(stream, chunks, projname, oraclename=None, opts=None, procs=None)
     pre = getattr(_streams, 'PREFORK', {}).get(stream)
     if pre:
         pre()          # build shared, read-only data (the corpus) once, before the workers are forked
-    if len(tasks) <= 1 or procs == 1:
+    if not tasks or procs == 1:
         results = map(process_chunk, tasks)
     else:
         ctx = multiprocessing.get_context('fork')
         pool = ctx.Pool(min(procs, len(tasks)))
+        # a worker that never comes back (a retrieval blocked for good, e.g. on a lock another thread leaked) must not hang
+        # the check: the stream is abandoned after a generous limit and reported as a failure of its own
+        limit = float(os.environ.get('VERIF_STREAM_TIMEOUT', (opts or {}).get('timeout', 420)))
         try:
-            results = pool.map(process_chunk, tasks, chunksize=1)
-        finally:
+            results = pool.map_async(process_chunk, tasks, chunksize=1).get(timeout=limit)
             pool.close()
+        except multiprocessing.TimeoutError:
+            pool.terminate()
+            hung = ChunkResult()
+            msg = ('no-return: stream %s did not finish within %d s: some operation on the real code never returned '
+                   '(blocked for good?); the workers were terminated' % (stream, limit))
+            hung.counters['no-return'] += 1
+            hung.oracle_failures.append((('stream-timeout', stream), ('hang',), msg))
+            results = [hung]
+        finally:
             pool.join()
     for r in results:
         agg.n += r.n
